@@ -76,3 +76,15 @@ func init() {
 		return one(st, v)
 	})
 }
+
+// (*net.Dialer).DialContext: a new connection object on success (TRUSTED: the network).
+func init() {
+	reg("(*net.Dialer).DialContext", func(x *Exec, st *State, c *CallCtx) []Outcome {
+		fail := st.clone()
+		fe := x.newErrAny(fail, "dial")
+		ct := c.ResT.At(0).Type()
+		obj := x.alloc(st)
+		conn := x.ifaceWithPayload(st, ct, nil, obj, "dialconn")
+		return []Outcome{{St: st, Res: []Val{conn, nilErr()}}, {St: fail, Res: []Val{Val{K: VIface, T: IntT(0), GoT: ct}, fe}}}
+	})
+}
